@@ -4,6 +4,7 @@
 -/
 import Rtp.Proofs.VLA
 import Rtp.Proofs.VLABuf
+import Rtp.Proofs.VLADec
 import Rtp.Pred.C19
 namespace Rtp.Props.C19
 open Rtp Rtp.Spec.VlaSpec Rtp.Model.Vla Rtp.Pred.C19
@@ -251,6 +252,24 @@ theorem c19_empty_allocation :
       encode ⟨(rid.val : Int), ((count.val + 1 : Nat) : Int), [], false⟩ = [0] ∧
       unmarshal default [0] = .fail 1 .tooShort := by
   decide
+
+/-- Everything Unmarshal accepts, from any byte string, is well-formed in all but two respects:
+    1–4 streams, layers in strictly ascending (stream, spatial id) order with ids in range and 1–4
+    temporal layers, resolution fields representable (or zero when the block is absent).  Not
+    guaranteed: RID below the stream count (the two header fields are independent bits) and
+    non-negative bitrates (a ten-byte LEB128 value can exceed 2^63). -/
+theorem c19_decoded_shape (r : VLA) (bs : Bytes) (n : Nat) (v : VLA) (h : unmarshal r bs = .ok n v) :
+    Decoded v := unmarshal_decoded r bs n v h
+
+/-- … so a decoded allocation whose RID is below its stream count is accepted by Marshal again. -/
+theorem c19_decoded_remarshals (r : VLA) (bs : Bytes) (n : Nat) (v : VLA) (h : unmarshal r bs = .ok n v)
+    (hr : v.rid < v.count) : ∃ b, marshalGo v = .ok b :=
+  decoded_marshals v (unmarshal_decoded r bs n v h) hr
+
+/-- non-vacuity, and the one asymmetry: header byte 0xC1 is RID 3 of 1 stream — Unmarshal accepts
+    it, Marshal refuses to write it -/
+example : unmarshal default [0xC1, 0x00, 0x05] = .ok 3 ⟨3, 1, [⟨0, 0, [5], 0, 0, 0⟩], false⟩ := by decide
+example : marshalGo ⟨3, 1, [⟨0, 0, [5], 0, 0, 0⟩], false⟩ = .err .streamID := by decide
 
 /-- Marshal never panics, whatever the allocation (valid, rejected, or accepted though not valid:
     unsorted layers, negative bitrates, out-of-range resolutions): once validation has passed, the
